@@ -248,7 +248,7 @@ class Phase(Angle):
                 phase1 = phase1.view(cls)
             return phase1.copy() if copy else phase1
 
-        phase1 = Angle(phase1, cls._unit, copy=False)
+        phase1 = Angle(phase1, cls._unit, copy=None)
 
         if phase2 is not None:
             if isinstance(phase2, Phase):
@@ -257,7 +257,7 @@ class Phase(Angle):
                     phase2 = phase2.view(cls)
                 return phase2
 
-            phase2 = Angle(phase2, cls._unit, copy=False)
+            phase2 = Angle(phase2, cls._unit, copy=None)
 
         return cls.from_angles(phase1, phase2)
 
@@ -734,7 +734,7 @@ class Phase(Angle):
         ) and basic_phase_out:
             try:
                 other = u.Quantity(
-                    inputs[1 - i_self], u.dimensionless_unscaled, copy=False
+                    inputs[1 - i_self], u.dimensionless_unscaled, copy=None
                 ).value
                 if function is np.multiply:
                     return self.from_angles(
@@ -805,7 +805,7 @@ class Phase(Angle):
 
         elif function is np.exp and basic and self.imaginary:
             # Avoid dimensionless_angles, but still get Quantity out.
-            exponent = u.Quantity(self.frac.to_value(u.radian), copy=False)
+            exponent = u.Quantity(self.frac.to_value(u.radian), copy=None)
             return function(exponent, **kwargs)
 
         # Fall-back: treat Phase as a simple Quantity.
